@@ -2,7 +2,7 @@
    Only statements, `exact`, and Print Assumptions live in this file. *)
 From Coq Require Import String.
 From Coq Require Import ZArith List Bool.
-From Cose Require Import Lib.Base Model.GoVal Spec.RFC8392 Model.Cwt Model.CwtProofs.
+From Cose Require Import Lib.Base Lib.GoSem Model.GoVal Spec.RFC8392 Model.Cwt Model.CwtProofs Gen.CwtSlicesGen Model.CwtSlicesProofs.
 Open Scope Z_scope.
 
 (* Struct path: for all exp/nbf/iat in uint64, every int64 skew (negative included), every
@@ -56,3 +56,18 @@ Print Assumptions C18_accept_map_interval.
 Theorem C18_skew_cap : forall o, new_validator o = Err <-> o_skew o > 600 * G.
 Proof. exact skew_cap. Qed.
 Print Assumptions C18_skew_cap.
+
+(* ---- the source itself: every statement of Validate / ValidateMap after the choice of `now` is regenerated from
+   cwt/validator.go on every run (translator T13, Gen/CwtSlicesGen.v; time.Time operations, claim and option fields mapped
+   onto Model/Cwt.v) and decides exactly as RFC 8392, for all claim sets, options and instants *)
+Theorem C18_validate_source_is_rfc8392 : forall o now c,
+  u64 (c_exp c) -> u64 (c_nbf c) -> u64 (c_iat c) -> now_ok now -> i64 (o_skew o) ->
+  cwt_Validator_Validate o now c = if accept o now c then Ok tt else Err.
+Proof. exact gen_validate_is_rfc8392. Qed.
+Print Assumptions C18_validate_source_is_rfc8392.
+
+Theorem C18_validate_map_source_is_rfc8392 : forall o now m,
+  vals_in_kind m -> now_ok now -> i64 (o_skew o) ->
+  cwt_Validator_ValidateMap o now m = if accept_map o now m then Ok tt else Err.
+Proof. exact gen_validate_map_is_rfc8392. Qed.
+Print Assumptions C18_validate_map_source_is_rfc8392.
